@@ -2567,6 +2567,9 @@ impl BrailleChars {
                     return false;
                 },
                 _ => {
+                    if is_leaf(node) {
+                        return false;       // ms, mglyph, ... are not items of an enclosed list (and their children are not elements)
+                    }
                     for child in node.children() {
                         if !child_meets_conditions(as_element(child)) {
                             return false;
